@@ -163,6 +163,10 @@ def make_interp(ctx, data_checked=True, extra=None):
             return AList(interp.iterate(src, node, keep_vars=True), 'tuple')
         if isinstance(src, (tuple, list)):
             return AList(list(src), 'tuple')
+        if isinstance(src, (bytes, bytearray, range)):
+            return AList(list(src), 'tuple')
+        if src is None or isinstance(src, (int, float, bool)) or isinstance(src, AV):
+            raise AbsRaise('TypeError', node, implicit=True, msg='SysexData() of something that is not iterable')
         return src
     ai.summaries['mido/messages/messages.py::SysexData'] = s_sysexdata
 
